@@ -17,7 +17,7 @@ ASSUMPTIONS = ["producer holds valid and its beat until accepted and keeps the h
                "packet, idle gaps included; a second obligation set additionally requires an idle-clean bus (excuse twin for listed findings)",
                "header definitions enumerated: 1/2/3/4/6 byte headers with 1..3 fields (widths 4/8/12/16, byte offsets, bit offsets, swap on/off) on 8/16/32-bit data paths",
                "payload lengths are whole beats (the cores carry no byte-enable in these layouts)"]
-BOUNDS = {"quick": "BMC K=14 cycles from reset", "thorough": "BMC K=20 cycles from reset, all header/data-width configurations"}
+BOUNDS = {"quick": "BMC K=14 cycles from reset", "thorough": "BMC K=20 cycles from reset (buffered packet FIFO K=14 and 16), all header/data-width configurations"}
 OUTSIDE = "packets longer than fit in K cycles; data widths 64/128 (same generic code, larger state); last_be handling"
 FUNCS = ["litex.soc.interconnect.packet.Header.encode/decode/get_field", "litex.soc.interconnect.packet.Packetizer", "litex.soc.interconnect.packet.Depacketizer",
          "litex.soc.interconnect.packet.PacketFIFO", "litex.soc.interconnect.packet.Status", "litex.soc.interconnect.packet.Arbiter", "litex.soc.interconnect.packet.Dispatcher"]
@@ -380,7 +380,7 @@ def jobs(tier):
     js.append(Job("packetizer_progress_h1_d16", build_pktz_progress, dict(hname="h1", dw=16, K=14), cost=3))
     js.append(Job("packetfifo_d4_pNone", build_pfifo, dict(depth=4, param_depth=None, buffered=False, K=K), cost=10))
     js.append(Job("packetfifo_d4_p2", build_pfifo, dict(depth=4, param_depth=2, buffered=False, K=K), cost=10))
-    js.append(Job("packetfifo_d2_pNone_buffered", build_pfifo, dict(depth=2, param_depth=None, buffered=True, K=K), cost=10))
+    js.append(Job("packetfifo_d2_pNone_buffered", build_pfifo, dict(depth=2, param_depth=None, buffered=True, K=min(K, 14)), cost=10))      # (thorough K went unknown after 900 s under load)
     if T:
         js.append(Job("packetfifo_d2_p2_buffered", build_pfifo, dict(depth=2, param_depth=2, buffered=True, K=16), cost=20))
     js.append(Job("packet_arbiter_2", build_arb, dict(n=2, K=K), cost=5))
